@@ -61,6 +61,16 @@ Fixpoint dappend (k : kstr) (x : el) (m : list member) : list member :=
       else (k', (n, v)) :: dappend k x r
   end.
 
+(** Well-formed trees: only the top node may be a root (name None); a nested root cannot be produced by the parser
+    and is merged into its parent by Keyvalues.append. *)
+Definition named (t : kv) : bool := match t with KBlock None _ => false | _ => true end.
+Fixpoint wf_kv (t : kv) : bool :=
+  match t with
+  | KLeaf _ _ => true
+  | KBlock _ ch => (fix go (l : list kv) : bool :=
+                      match l with [] => true | c :: r => named c && wf_kv c && go r end) ch
+  end.
+
 Section Bridge.
   Variable fold : kstr -> kstr.
   Variable cfg : kv1cfg.
@@ -101,6 +111,11 @@ Section Bridge.
         El (match on with Some _ => t_block cfg | None => t_root cfg end)
            (fold_left (place no_inl) (map (fun c => (c, from_kv1 c)) ch) m1)
     end.
+
+  (** [kv.append(child)] in to_kv1: Keyvalues.append merges the children of a root (name None) keyvalue into the
+      parent instead of nesting it (deprecated but present behaviour). *)
+  Definition flatten_roots (l : list kv) : list kv :=
+    flat_map (fun x => match x with KBlock None c => c | _ => [x] end) l.
 
   (** Element.name: the 'name' member read as a string ('' when absent) *)
   Definition el_name (ms : list member) : option kstr :=
@@ -150,7 +165,7 @@ Section Bridge.
                        end
                    end) ms with
           | Some (ls, sub) =>
-              let kids := ls ++ match sub with Some s => s | None => [] end in
+              let kids := ls ++ match sub with Some s => flatten_roots s | None => [] end in
               if kstr_eqb ty (t_block cfg)
               then match el_name ms with Some n => Some (KBlock (Some n) kids) | None => None end
               else Some (KBlock None kids)
